@@ -439,10 +439,57 @@ def model_check(chk, tier, own):
             chk.violation("L1:CCubeAlg:" + ",".join(res.violated), res.out[-2500:], {"leg": "L1", "cfg": cfg})
 
 
+def exhaustive_small_scope(chk, env, own, tier):
+    """L2: EVERY configuration of the model's small scope (CCubeAlg: 2 dimensions x 3 rows x extent 2, every common per
+    dimension incl. the absent one, every fact validity pattern) is generated by TLC and evaluated on the real index cube"""
+    res = core.run_tlc("CCubeAlg.tla", "Gen_CCube.cfg", workers=1, timeout=1200)
+    chk.add_tlc("L2 generator Gen_CCube (all configurations of the small scope)", res)
+    cases = res.json_cases("CASE")
+    if len(cases) < 1000:
+        raise core.MachineryFailure("Gen_CCube produced %d cases" % len(cases))
+    if tier == "quick" and own not in ("C02", "C14"):
+        cases = cases[:: 3]
+    for c in cases:
+        dims = [np.array(d, dtype=np.int64) for d in c["data"]]
+        n = len(dims[0])
+        commons = list(c["commons"])
+        ishape = tuple(max(3, cm + 1) for cm in commons)
+        if own == "C14":
+            record_walk(env, dims, commons)
+            continue
+        if own == "C02":
+            case = cb.Case(dims, ishape, None, None, False, ("nan",), "count")
+        else:
+            fact = {"vals": [[Fraction(r + 2)] for r in range(n)], "valid": [[bool(v)] for v in c["fvalid"]], "form": "tuple",
+                    "dtype": "float", "oned": True, "K": 1}
+            func = ("sum", "mean", "valid_count")[(sum(commons) + n) % 3]
+            ignore = bool(sum(c["fvalid"]) % 2)
+            case = cb.Case(dims, ishape, fact, None, ignore, ("tuple", 0), func)
+        env.run_ccube(own, case, commons=commons, note="exhaustive small scope (Gen_CCube)")
+    chk.extra["exhaustive_small_scope_configurations"] = len(cases)
+
+
+def record_walk(env, dims, commons):
+    idims = [canonical(env.iindex, d, c) for d, c in zip(dims, commons)]
+    cube = env.ccube(idims)
+    delivered, exc = [], None
+    try:
+        cube.walk(lambda c, r: delivered.append({"c": [int(x) for x in c], "rows": [int(x) + 1 for x in np.asarray(r).tolist()]}))
+    except Exception as e:  # noqa
+        exc = "%s: %s" % (type(e).__name__, e)
+    env.rec.tid += 1
+    ev = {"tid": env.rec.tid, "prop": "C14", "kind": "walk", "n": len(dims[0]), "dims": [d.tolist() for d in dims],
+          "commons": [int(c) for c in commons], "delivered": delivered, "exc": exc is not None}
+    env.rec.events.append(ev)
+    env.rec.meta[ev["tid"]] = {"cube": "ccube.walk", "dims": [d.tolist() for d in dims], "commons": commons, "exc": exc}
+
+
 def run_shared(chk, tier, own):
     if own in ("C02", "C03", "C04", "C05", "C14"):
         model_check(chk, tier, own)
     env = Env(core.SEED)
+    if own in ("C02", "C03", "C04", "C05", "C14"):
+        exhaustive_small_scope(chk, env, own, tier)
     GENS[own](env, tier)
     judge(chk, env.rec, own)
 
